@@ -300,3 +300,93 @@ def standard_jobs(tier, job_fn, cyclic=False, light=False, no_w2=False, skip_tho
             continue
         out.append((cfg_name(c), job_fn, dict(n=n, hard=hard, soft=soft, w=w, tier=tier)))
     return out
+
+
+# ----------------------------------------------------------------------------- what the back end is handed
+def handed_graphs_harness(ex):
+    """Scheduler.__init__ (symrun, one path per labelled graph): the configurations of the model checker are graphs of plain tasks, which is
+    what the back end receives.  This job closes the gap for graphs that contain a NESTED dependency graph (possibly EMPTY) as a node: from
+    hard / soft graphs over 3 plain tasks and one nested graph (0 or 1 inner task, at a solver-chosen place of the creation order, every
+    pair of nodes unrelated / hard / soft), the full graph handed to the back end orders two plain tasks exactly when the hard and soft edges
+    (an edge to / from a nested graph standing for all of its tasks, an empty one passing the constraint on) order them, the hard graph
+    exactly when the hard edges do, and both hold plain tasks only."""
+    from valjean.cosette.depgraph import DepGraph
+    from valjean.cosette.scheduler import Scheduler
+    from valjean.cosette.task import Task, TaskStatus
+
+    class Plain(Task):
+        def do(self, env, config):
+            return {}, TaskStatus.DONE
+    plain = [Plain(f'p{i}') for i in range(3)]
+    inner = [Plain('inner')] if ex.choice(2, 'nested-graph-has-a-task') else []
+    sub = DepGraph.from_dependency_dictionary({t: [] for t in inner})
+    pos = ex.choice(4, 'place-of-the-nested-graph')
+    order = plain[:pos] + [sub] + plain[pos:]
+    hard, soft = DepGraph(), DepGraph()
+    for x in order:
+        hard.add_node(x)
+    labels = {}
+    for i, x in enumerate(order):
+        for j in range(i):
+            lab = ex.choice(3, f'edge-{i}-{j}')
+            labels[(i, j)] = lab
+            if lab == 1:
+                hard.add_dependency(x, on=order[j])
+            elif lab == 2:
+                soft.add_dependency(x, on=order[j])
+
+    class _Backend:
+        def execute_tasks(self, **kw):
+            raise NotImplementedError
+    sc = Scheduler(hard_graph=hard, soft_graph=soft, backend=_Backend())
+    tasks = plain + inner
+
+    def expected(kinds):
+        """ordering between plain tasks implied by the edges of the given kinds (ports of the nested graph: in -> tasks -> out)"""
+        IN, OUT = ('in',), ('out',)
+        es = {(OUT, IN)} | {(OUT, t) for t in inner} | {(t, IN) for t in inner}      # a after b written (a, b): OUT after tasks after IN
+        for (i, j), lab in labels.items():
+            if lab in kinds:
+                a = OUT if order[i] is sub else order[i]      # x depends on the nested graph: after ALL of it
+                b = IN if order[j] is sub else order[j]
+                a2 = IN if order[i] is sub else order[i]      # the nested graph depends on y: all of it after y
+                b2 = OUT if order[j] is sub else order[j]
+                es.add((a2, b2))
+                del a, b
+        nodes = {n for e in es for n in e} | set(tasks)
+        reach = set(es)
+        changed = True
+        while changed:
+            changed = False
+            for (a, b) in list(reach):
+                for (c, d) in list(reach):
+                    if b is c and (a, d) not in reach:
+                        reach.add((a, d))
+                        changed = True
+        return {(a, b) for (a, b) in reach if any(a is t for t in tasks) and any(b is t for t in tasks) and a is not b}, nodes
+
+    def got(graph):
+        out = set()
+        ns = list(graph.nodes())
+        for a in ns:
+            seen, todo = [], list(graph.dependencies(a))
+            while todo:
+                b = todo.pop()
+                if not any(b is s_ for s_ in seen):
+                    seen.append(b)
+                    todo.extend(graph.dependencies(b))
+            out |= {(a, b) for b in seen}
+        return out, ns
+    for name, graph, kinds in (('full', sc.full_graph, (1, 2)), ('hard', sc.hard_graph, (1,))):
+        g_reach, g_nodes = got(graph)
+        want, _ = expected(kinds)
+        ok_nodes = len(g_nodes) == len(tasks) and all(any(n is t for t in tasks) for n in g_nodes)
+        ex.check(ok_nodes, f'{name}-graph-handed-to-the-back-end-holds-exactly-the-plain-tasks')
+        if ok_nodes:
+            ex.check(g_reach == want, f'{name}-graph-handed-to-the-back-end-orders-two-tasks-exactly-when-the-given-edges-do')
+
+
+def _job_handed_graphs(timeout_ms=20000, seed=0, **_):
+    from engine.runner import run_sym
+    return run_sym('x', handed_graphs_harness, timeout_ms=timeout_ms, seed=seed, max_paths=100000,
+                   require_checks=['full-graph-handed-to-the-back-end-orders-two-tasks-exactly-when-the-given-edges-do'])
